@@ -633,13 +633,13 @@ Proof.
   - eapply (on_obj_cap WInv) in H; eauto. intros s Hs.
     destruct (erase p pos s) as [s' o'] eqn:E. apply erase_good in E; auto. apply E.
   - destruct (i <? length P); inversion H; subst; auto. apply Same. apply pget_pset_other. congruence.
-  - eapply (on_obj_cap WInv) in H; eauto. intros s Hs. destruct (live_elem s k) as [x|] eqn:Ex; auto.
+  - eapply (on_obj_cap WInv) in H; eauto. intros s Hs. match goal with |- context [live_elem s ?kk] => destruct (live_elem s kk) as [x|] eqn:Ex; auto end.
     destruct (emplace p pos x s) as [s' o'] eqn:E. apply emplace_good in E; auto. apply E. eapply (live_elem_Q nonfresh); eauto.
-  - eapply (on_obj_cap WInv) in H; eauto. intros s Hs. destruct (live_elem s k) as [x|] eqn:Ex; auto.
+  - eapply (on_obj_cap WInv) in H; eauto. intros s Hs. match goal with |- context [live_elem s ?kk] => destruct (live_elem s kk) as [x|] eqn:Ex; auto end.
     destruct (emplace_back p x s) as [s' o'] eqn:E. apply (append_good nonfresh) in E; auto. apply E. eapply (live_elem_Q nonfresh); eauto.
-  - eapply (on_obj_cap WInv) in H; eauto. intros s Hs. destruct (live_elem s k) as [x|] eqn:Ex; auto.
+  - eapply (on_obj_cap WInv) in H; eauto. intros s Hs. match goal with |- context [live_elem s ?kk] => destruct (live_elem s kk) as [x|] eqn:Ex; auto end.
     destruct (insert_copy p x s) as [s' o'] eqn:E. apply (append_good nonfresh) in E; auto. apply E. eapply (live_elem_Q nonfresh); eauto.
-  - eapply (on_obj_cap WInv) in H; eauto. intros s Hs. destruct (live_elem s k) as [x|] eqn:Ex; auto.
+  - eapply (on_obj_cap WInv) in H; eauto. intros s Hs. match goal with |- context [live_elem s ?kk] => destruct (live_elem s kk) as [x|] eqn:Ex; auto end.
     destruct (push_back p x s) as [s' o'] eqn:E. apply (append_good nonfresh) in E; auto. apply E. eapply (live_elem_Q nonfresh); eauto.
   - eapply (on_obj_cap WInv) in H; eauto. intros s Hs. destruct (self_range_valid s a b) eqn:V; auto.
     destruct (insert_self_range p pos a b s) as [s' o'] eqn:E. apply (insert_self_range_good nonfresh) in E; auto. apply E.
